@@ -177,5 +177,5 @@ func cmpLit(e ast.Expr, lhs string, op token.Token) (int64, bool) {
 	return evalInt("", be.Y, 0)
 }
 
-func bp(b bool) *bool    { return &b }
+func bp(b bool) *bool   { return &b }
 func ip(i int64) *int64 { return &i }
